@@ -699,6 +699,45 @@ def unit_images(rep, rng):
                           f"other eigenimages: the components depend on the unit of the data", {"X": C.hexf(X), "factor_exponent": e})
 
 
+def refit_other_penalties(rep, rng):
+    """One estimator object fitted again with OTHER penalty matrices of the same size (first- then second-order differences,
+    another scaling): under the same global seed the second fit is the fit a new object gives — nothing of an earlier fit
+    (penalty eigendecompositions, smoothing parameters) survives on the object."""
+    from FDApy.preprocessing.dim_reduction import fcp_tpa as F
+    n, m1, m2 = 8, 9, 8
+    X = gen_data(rng, "smooth", n, m1, m2) + 0.5 * rng.normal(size=(n, m1, m2))
+    x1, x2 = np.linspace(0, 1, m1), np.linspace(0, 2, m2)
+
+    def pen2(m):
+        d = np.diff(np.identity(m), n=2)
+        return d @ d.T
+    pens = [{"v": pen(m1), "w": pen(m2)}, {"v": pen2(m1), "w": pen2(m2)}, {"v": 7.0 * pen(m1), "w": 0.25 * pen2(m2)}]
+    ar = {"v": (1e-4, 1e4), "w": (1e-4, 1e4)}
+
+    def fit(est, pm):
+        with warnings.catch_warnings():
+            warnings.simplefilter("ignore")
+            np.random.seed(2468)
+            est.fit(fd.dense([x1, x2], X.copy()), {k: v.copy() for k, v in pm.items()}, dict(ar), tolerance=1e-6, max_iteration=30)
+        return np.asarray(est.eigenvalues, float).copy(), np.asarray(est.eigenfunctions.values, float).copy()
+    try:
+        used = F.FCPTPA(n_components=2, normalize=False)
+        fit(used, pens[0])
+        for j in (1, 2, 0):
+            l_used, e_used = fit(used, pens[j])
+            l_new, e_new = fit(F.FCPTPA(n_components=2, normalize=False), pens[j])
+            rep.case(("refit-other-penalties", j, X.tobytes()), kind="history/refit-other-penalties")
+            if l_used.shape != l_new.shape or e_used.shape != e_new.shape \
+                    or np.max(np.abs(l_used - l_new)) > 1e-9 * max(1.0, float(np.max(np.abs(l_new)))) \
+                    or np.max(np.abs(e_used - e_new)) > 1e-9 * max(1.0, float(np.max(np.abs(e_new)))):
+                rep.violation(f"FCPTPA fitted again with other penalty matrices of the same size (set {j}) under the same global seed "
+                              f"gives eigenvalues {l_used.tolist()}, a new object gives {l_new.tolist()} (eigenimages differ by "
+                              f"{float(np.max(np.abs(e_used - e_new))) if e_used.shape == e_new.shape else float('nan'):.3g}): the "
+                              "result depends on an earlier fit of the same object", {"X": C.hexf(X), "penalty_set": j, "seed": 2468})
+    except Exception as e:  # noqa: BLE001
+        rep.notes.append(f"refit-other-penalties monitor: {type(e).__name__}: {e}"[:200])
+
+
 # ----------------------------------------------------------------------------------
 def run(rep, props, replay=None):
     quick = C.tier() == "quick"
@@ -709,6 +748,7 @@ def run(rep, props, replay=None):
     real_runs(rep, rng, quick)
     integer_images(rep, rng)
     unit_images(rep, np.random.default_rng([C.seed(), 17, 5]))
+    refit_other_penalties(rep, np.random.default_rng([C.seed(), 17, 9]))
 
 
 def replay_case(rep, rp):
